@@ -1,5 +1,5 @@
 (* python-brace, generated tables: the facts the model's reading of the regular expressions relies on, and the
-   no-foreign-exception theorem instantiated with the tables of the running interpreter, isdigit replaced by isdecimal. *)
+   no-foreign-exception theorem instantiated with the tables of the running interpreter. *)
 From Coq Require Import List NArith ZArith Bool Lia.
 From I18n Require Import Lib.Outcome Lib.Ranges Generated.Ucd Generated.PyConsts Generated.PyFmtInfo
   Model.FmtPerlBrace Model.FmtPyBrace Model.FmtInstances Spec.PerlBrace Proofs.PerlBrace Proofs.FmtPyBrace.
@@ -20,16 +20,11 @@ Lemma ucd_facts :
   int_max_str_digits = 0 /\ gen_pybrace_ssize_max = pb_ssize_max_std.
 Proof. vm_compute. repeat split; reflexivity. Qed.
 
-(* the same for the generated tables with isdigit replaced by isdecimal *)
-Definition gen_ucd_fixed : ucd := {|
-  u_w := re_w; u_d := re_d; u_isdigit := py_isdecimal; u_isdecimal := py_isdecimal;
-  u_decval := re_d_value; u_maxd := int_max_str_digits |}.
-
-Lemma own_errors_generated_tables : forall s c, pybrace_parse gen_ucd_fixed gen_pybrace_ssize_max s <> Crash c.
+(* the tables of the running interpreter satisfy the side conditions *)
+Lemma gen_ucd_ok : ucd_ok gen_ucd.
 Proof.
   destruct ucd_facts as [Htree [Hascii [_ [Hmaxd _]]]].
-  apply pybrace_own_errors; [|intros c H; exact H].
-  constructor; cbn [u_maxd u_isdecimal u_d u_decval gen_ucd_fixed].
+  constructor; cbn [u_maxd u_isdecimal u_d u_decval gen_ucd].
   - exact Hmaxd.
   - intros c Hc. unfold FmtPyBrace.is_ascii_digit in Hc. apply andb_prop in Hc. destruct Hc as [H1 H2].
     apply N.leb_le in H1, H2. rewrite forallb_forall in Hascii. apply Hascii.
@@ -40,6 +35,8 @@ Proof.
     pose proof (rmem_rfind re_d_tree c Hc) as Hf. destruct (rfind re_d_tree c); [discriminate|congruence].
 Qed.
 
+Lemma own_errors_generated_tables : forall s c, pybrace_parse_gen s <> Crash c.
+Proof. intros s c. unfold pybrace_parse_gen. apply pybrace_own_errors. exact gen_ucd_ok. Qed.
 
 (* ---------------------------------------------------------------- perl-brace on the generated tables *)
 Lemma ucd_braces_not_word : re_w 123 = false /\ re_w 125 = false.
@@ -67,3 +64,35 @@ Qed.
 Lemma gen_accept_implies_markup : forall s sg,
   pybrace_parse_gen s = Ok sg -> nested_guard gen_ucd (S (length s)) s = true -> cpy_markup_ok s = true.
 Proof. intros s sg. unfold pybrace_parse_gen. apply accept_implies_markup. exact gen_ucd_chars. Qed.
+
+Lemma gen_reject_if_markup_rejects : forall s,
+  cpy_markup_ok s = false -> nested_guard gen_ucd (S (length s)) s = true -> exists e, pybrace_parse_gen s = Err e.
+Proof. intros s. unfold pybrace_parse_gen. apply reject_if_markup_rejects; [exact gen_ucd_chars|exact gen_ucd_ok]. Qed.
+
+(* ---------------------------------------------------------------- typing rules vs CPython's format() on the generated tables *)
+From I18n Require Import Proofs.FmtPyBraceSpec.
+
+Lemma rfind_rmem t : forall c, rfind t c <> None -> rmem t c = true.
+Proof.
+  induction t as [|l IHl lo hi r IHr]; intros c; cbn [rmem rfind]; [congruence|].
+  destruct (c <? lo); [apply IHl|]. destruct (c <=? hi); [reflexivity|apply IHr].
+Qed.
+
+Lemma gen_ucd_spec : ucd_spec gen_ucd gen_pybrace_ssize_max.
+Proof.
+  constructor.
+  - exact gen_ucd_ok.
+  - vm_compute. discriminate.
+  - intros c. cbn [u_d u_decval gen_ucd]. unfold re_d, re_d_value, rdecimal. split.
+    + intros H. pose proof (rmem_rfind re_d_tree c H) as Hf. destruct (rfind re_d_tree c); [discriminate|congruence].
+    + intros H. apply rfind_rmem. destruct (rfind re_d_tree c); [discriminate|congruence].
+  - intros c Hin. cbn [u_decval gen_ucd]. cbn [In known_types] in Hin.
+    repeat (destruct Hin as [<-|Hin]; [vm_compute; reflexivity|]). destruct Hin.
+  - split; vm_compute; reflexivity.
+  - vm_compute. reflexivity.
+Qed.
+
+Lemma gen_spec_sound : forall ftext tl tp v,
+  spec_types gen_ucd gen_pybrace_ssize_max ftext tl = Ok tp -> forallb not_brace tl = true -> spec_guard gen_ucd tl = true ->
+  val_in v tp = true -> format_value re_d_value v tl = FSuccess.
+Proof. exact (spec_sound gen_ucd gen_pybrace_ssize_max gen_ucd_spec). Qed.
